@@ -3,6 +3,8 @@ package props
 import (
 	"context"
 	"fmt"
+	"os"
+	"path/filepath"
 	"sync"
 	"sync/atomic"
 	"time"
@@ -11,6 +13,7 @@ import (
 	"go.etcd.io/etcd/api/v3/etcdserverpb"
 
 	"github.com/kubewharf/kubebrain/pkg/backend"
+	"github.com/kubewharf/kubebrain/pkg/endpoint"
 
 	"verif/internal/harness"
 )
@@ -252,7 +255,20 @@ func runC19Servers(c *harness.Case) {
 	rm := harness.NewRecMetrics(true)
 	kv := harness.WithMetrics(eng.KV, rm)
 	// nodes as cmd/option.Run starts them (pkg/endpoint: multiplexed client/peer ports; etcd proxy on)
-	A, ok := newProdNode(c, kv, rm, false, true, 256)
+	sec := func() *endpoint.SecurityConfig { return &endpoint.SecurityConfig{} }
+	if mode := []string{"off", "only", "both"}[(c.Index/len(c19Items))%3]; mode != "off" {
+		// the peer port (revision syncer, etcd proxy) over TLS with client certificates, alone or next to plain connections
+		cs, cerr := harness.NewCertSet(filepath.Join(harness.ScratchRoot, fmt.Sprintf("certs19-%d-%d", os.Getpid(), c.Index)))
+		if cerr != nil {
+			c.Inconclusive("certificates: " + cerr.Error())
+			return
+		}
+		defer os.RemoveAll(cs.Dir)
+		sec = func() *endpoint.SecurityConfig {
+			return &endpoint.SecurityConfig{CertFile: cs.Cert, KeyFile: cs.Key, CA: cs.CA, AllowInsecure: mode == "both"}
+		}
+	}
+	A, ok := newProdNodeSec(c, kv, rm, false, true, 256, sec())
 	if !ok {
 		return
 	}
@@ -262,7 +278,7 @@ func runC19Servers(c *harness.Case) {
 		c.Inconclusive("the first node did not become leader within the watchdog")
 		return
 	}
-	B, ok := newProdNode(c, kv, rm, false, true, 256)
+	B, ok := newProdNodeSec(c, kv, rm, false, true, 256, sec())
 	if !ok {
 		return
 	}
